@@ -27,6 +27,7 @@ ASSUMPTIONS = [
     'agrees with u to 1e-8 relative on the nearer tail',
     'lin_std is not covered by the statement and not judged',
 ]
+RULE = RULE + ' ' + 'Also: u handed over as python / numpy integer (end points), 0-d and 1-d arrays; Uniform / LogUniform objects given new bounds through set_bounds and judged again.'
 REQUIRED = {'rebounded': 0.25, 'mean-zero': 0.03, 'kind:Uniform': 0.1, 'kind:LogUniform': 0.1, 'kind:Gaussian': 0.1, 'kind:LogGaussian': 0.1,
             'reversed-bounds': 0.1, 'via:parser': 0.1, 'lin-arg': 0.1}
 
